@@ -3,6 +3,8 @@
 package props
 
 import (
+	"context"
+	"encoding/json"
 	"fmt"
 	"mc/report"
 	"os"
@@ -22,8 +24,10 @@ func runC20(ctx *Ctx) {
 	r := ctx.R
 	ops := c20ops()
 	bound := 2
+	vsched.MaxPerSite = 4
 	if ctx.Thorough {
 		bound = 3
+		vsched.MaxPerSite = 10
 	}
 	// the repository's NASDecode prints to stdout: keep the check's own stdout for verdict lines only
 	if devnull, err := os.OpenFile(os.DevNull, os.O_WRONLY, 0); err == nil {
@@ -62,10 +66,21 @@ func runC20(ctx *Ctx) {
 		c20race(ctx)
 		r.Set("operation_groups", len(groups))
 		r.Set("preemption_bound", bound)
+		r.Set("yield_instances_per_site_and_thread", vsched.MaxPerSite)
+		if b, err := os.ReadFile(filepath.Join(report.BuildDir, "ovl20", "instrument.json")); err == nil {
+			var ins struct {
+				Mutated []string `json:"mutated"`
+				Sites   int      `json:"sites"`
+			}
+			if json.Unmarshal(b, &ins) == nil {
+				r.Set("mutated_package_level_variables", ins.Mutated)
+				r.Set("yield_sites", ins.Sites)
+			}
+		}
 		r.Sample("threads: UE0 NEA1(5 octets) || UE1 NIA1(9 octets): every interleaving at the 90+ yield points with <=2 preemptions; outputs must equal the sequential ones")
-		r.Rule = fmt.Sprintf("cooperative scheduler (one goroutine runs at a time; scheduling points = entry of every function that touches a mutated package-level variable [found by AST analysis: snow3g.lfsr/fsm, ngapTestpacket.TestPlmn], scheduler-aware mutex operations, thread start/end): for all %d unordered pairs of 11 operation kinds (each thread on its own UE context, keys and messages)%s every schedule with <=%d preemptions (one less for groups containing a composite NASEncode/NASDecode operation); "+
+		r.Rule = fmt.Sprintf("cooperative scheduler (one goroutine runs at a time; scheduling points = every statement that reads or writes a package-level variable mutated at run time anywhere in the instrumented packages [found by AST analysis of the current tree, listed under mutated_package_level_variables; the first %d dynamic instances of each such statement per thread], scheduler-aware mutex operations, thread start/end): for all %d unordered pairs of 11 operation kinds (each thread on its own UE context, keys and messages)%s every schedule with <=%d preemptions (one less for groups containing a composite NASEncode/NASDecode operation); "+
 			"oracle: every thread's outputs == the outputs of the same operation run alone (and == the independent references for NEA1/NIA1); deadlock = violation; plus a separate free-running pass of the same bodies built with -race (G in {2,8,64} goroutines, 200 rounds): any data race report is a violation; distinct = (group, schedule); non-trivial = schedules with at least one preemption",
-			len(ops)*(len(ops)+1)/2, map[bool]string{true: " and 5 triples", false: ""}[ctx.Thorough], bound)
+			vsched.MaxPerSite, len(ops)*(len(ops)+1)/2, map[bool]string{true: " and 5 triples", false: ""}[ctx.Thorough], bound)
 		r.Assume("only sequentially consistent interleavings at the inserted yield points are explored; unsynchronised accesses elsewhere are the business of the free-running -race pass (a dynamic detector, not an enumeration)",
 			"switches at a thread's end count as deviations in the explorer (exact for 2 threads, a slightly smaller space than the true preemption bound for 3)")
 		return
@@ -137,10 +152,18 @@ func c20race(ctx *Ctx) {
 		return
 	}
 	for _, g := range []int{2, 8, 64} {
-		cmd := exec.Command(bin, "-g", fmt.Sprint(g), "-rounds", "200")
+		cctx, cancel := context.WithTimeout(context.Background(), 15*time.Minute) // a horizon (the pass takes seconds), not an oracle on speed
+		cmd := exec.CommandContext(cctx, bin, "-g", fmt.Sprint(g), "-rounds", "200")
+		cmd.WaitDelay = 5 * time.Second
 		cmd.Env = append(os.Environ(), "GORACE=halt_on_error=0")
 		cmd.Dir = report.BuildDir
 		out, err := cmd.CombinedOutput()
+		hung := cctx.Err() != nil
+		cancel()
+		if hung {
+			r.Violate("free-running/does-not-terminate", fmt.Sprintf("free-running pass, %d goroutines", g), "the operations did not finish within 15 minutes (deadlock or livelock between goroutines): "+tail(string(out), 800), nil)
+			continue
+		}
 		reports := raceRe.FindAllString(string(out), -1)
 		seen := map[string]bool{}
 		for _, rep := range reports {
